@@ -31,7 +31,7 @@ namespace Qx.C19
 @[simp] theorem Recv.checkData_acc (H : List UInt8 → List UInt8) (r : Recv) : (r.checkData H).acc = r.acc := by
   simp [Recv.acc]
 
-theorem Recv.acc_write (r : Recv) (pl : List UInt8) (e : Nat) :
+theorem Recv.acc_write (r : Recv) (pl : List UInt8) (e : UInt16) :
     ({ r with accRev := pl.reverse ++ r.accRev, expected := e } : Recv).acc = r.acc ++ pl := by
   simp [Recv.acc]
 
@@ -236,24 +236,28 @@ theorem recv_foreign (H : List UInt8 → List UInt8) (r : Recv) (p : Stanza) (h 
   unfold Foreign at h; unfold recv; rw [if_pos h]
 
 end Qx.C19
-
 namespace Qx.C19
 
 /-! ### what the sender emits, what the receiver then holds -/
 
-/-- a request really produced by the sending job for file `data` with block size `bs` -/
+/-- a request really produced by the sending job for file `data` with block size `bs`: block number `n`,
+carrying the wrapped 16-bit sequence number `n mod 65536` -/
 def Genuine (data : List UInt8) (bs : Nat) (p : Stanza) : Prop :=
   p.sender = 0 ∧ p.sid = 0 ∧
     match p.kind with
     | .data seq pl => ∃ n, seq = UInt16.ofNat n ∧ pl = (data.drop (n * bs)).take bs ∧ pl ≠ []
     | _ => True
 
+/-- the sending job has read `n` whole blocks, its 16-bit counter shows `n mod 65536` -/
 def SInv (data : List UInt8) (bs : Nat) (s : Send) : Prop :=
-  s.blockSize = bs ∧ s.rest = data.drop (s.seq * bs)
+  s.blockSize = bs ∧ ∃ n, s.seq = UInt16.ofNat n ∧ s.rest = data.drop (n * bs)
 
+/-- the receiving job holds the first `e ≤ 65536` blocks and waits for sequence number `e mod 65536` — or, once its
+counter has wrapped after a complete file of exactly 65536 blocks, it has accepted a replayed block and holds MORE
+bytes than the file has (a state from which the size check can never pass again) -/
 def RInv (data : List UInt8) (bs : Nat) (r : Recv) : Prop :=
-  r.expected ≤ 65536 ∧ r.acc.length ≤ r.expected * bs ∧
-    (data.length ≤ 65536 * bs → r.acc = data.take (r.expected * bs))
+  (∃ e, e ≤ 65536 ∧ r.expected = UInt16.ofNat e ∧ r.acc = data.take (e * bs)) ∨
+  (data ≠ [] ∧ data.length < r.acc.length)
 
 @[simp] theorem Send.terminate_rest (s : Send) (c : JError) : (s.terminate c).rest = s.rest := by
   unfold Send.terminate; split <;> rfl
@@ -264,90 +268,113 @@ def RInv (data : List UInt8) (bs : Nat) (r : Recv) : Prop :=
 @[simp] theorem Send.terminate_state (s : Send) (c : JError) : (s.terminate c).state = .finished := by
   unfold Send.terminate; split <;> simp_all
 
+theorem ofNat_succ (n : Nat) : UInt16.ofNat (n + 1) = UInt16.ofNat n + 1 := by
+  rw [UInt16.ofNat_add]; rfl
+
 theorem sender_SInv (data : List UInt8) (bs : Nat) (s : Send) (rep : Reply) (h : SInv data bs s) :
     SInv data bs (sender s rep).1 ∧ ∀ p, (sender s rep).2 = some p → Genuine data bs p := by
-  obtain ⟨hb, hr⟩ := h
+  obtain ⟨hb, n, hn, hr⟩ := h
   unfold sender
   split
-  · exact ⟨⟨hb, hr⟩, by simp⟩
+  · exact ⟨⟨hb, n, hn, hr⟩, by simp⟩
   · split
-    · exact ⟨⟨hb, hr⟩, by simp⟩
+    · exact ⟨⟨hb, n, hn, hr⟩, by simp⟩
     · split
-      · exact ⟨⟨hb, hr⟩, by simp⟩
+      · exact ⟨⟨hb, n, hn, hr⟩, by simp⟩
       · split
         · split
           · rename_i hne
-            refine ⟨⟨hb, ?_⟩, ?_⟩
+            refine ⟨⟨hb, n + 1, ?_, ?_⟩, ?_⟩
+            · show s.seq + 1 = UInt16.ofNat (n + 1)
+              rw [ofNat_succ, hn]
             · simp only [hr, hb, List.drop_drop, Nat.succ_mul]
             · intro p hp
               simp only [Option.some.injEq] at hp
               subst hp
-              refine ⟨rfl, rfl, s.seq, rfl, ?_, ?_⟩
+              refine ⟨rfl, rfl, n, hn, ?_, ?_⟩
               · simp only [hr, hb]
               · exact hne
-          · refine ⟨⟨by simpa using hb, by simpa using hr⟩, ?_⟩
+          · refine ⟨⟨by simpa using hb, n, by simpa using hn, by simpa using hr⟩, ?_⟩
             intro p hp
             simp only [Option.some.injEq] at hp
             subst hp
             exact ⟨rfl, rfl, trivial⟩
-        · refine ⟨⟨by simpa using hb, by simpa using hr⟩, ?_⟩
+        · refine ⟨⟨by simpa using hb, n, by simpa using hn, by simpa using hr⟩, ?_⟩
           intro p hp
           simp only [Option.some.injEq] at hp
           subst hp
           exact ⟨rfl, rfl, trivial⟩
 
+theorem block_exists (data : List UInt8) (bs n : Nat) (hne : (data.drop (n * bs)).take bs ≠ []) :
+    n * bs < data.length := by
+  apply Classical.byContradiction
+  intro hc
+  apply hne
+  rw [List.drop_of_length_le (by omega)]
+  simp
+
 theorem block_index_lt (data : List UInt8) (bs n : Nat) (hlen : data.length ≤ 65536 * bs)
     (hne : (data.drop (n * bs)).take bs ≠ []) : n < 65536 := by
-  have h1 : n * bs < data.length := by
-    apply Classical.byContradiction
-    intro hc
-    apply hne
-    rw [List.drop_of_length_le (by omega)]
-    simp
+  have h1 : n * bs < data.length := block_exists data bs n hne
   apply Classical.byContradiction
   intro hc
   have : 65536 * bs ≤ n * bs := Nat.mul_le_mul_right bs (by omega)
   omega
 
-theorem recv_RInv (H : List UInt8 → List UInt8) (data : List UInt8) (bs : Nat) (r : Recv) (p : Stanza)
+theorem ofNat_inj_of_lt (a b : Nat) (ha : a < 65536) (hb : b < 65536) (h : UInt16.ofNat a = UInt16.ofNat b) : a = b := by
+  have := congrArg UInt16.toNat h
+  rwa [UInt16.toNat_ofNat_of_lt' ha, UInt16.toNat_ofNat_of_lt' hb] at this
+
+theorem ofNat_65536 : UInt16.ofNat 65536 = UInt16.ofNat 0 := by decide
+
+/-- needs the file to have at most 65536 blocks: otherwise block `n + 65536` is indistinguishable from block `n` -/
+theorem recv_RInv (H : List UInt8 → List UInt8) (data : List UInt8) (bs : Nat) (hlen : data.length ≤ 65536 * bs)
+    (r : Recv) (p : Stanza)
     (h : RInv data bs r) (hp : Genuine data bs p ∨ Foreign p) : RInv data bs (recv H r p).1 := by
   by_cases hf : Foreign p
   · rw [recv_foreign H r p hf]; exact h
   have hg : Genuine data bs p := hp.resolve_right hf
-  obtain ⟨h1, h2, h3⟩ := h
   obtain ⟨g1, g2, g3⟩ := hg
   unfold recv
   split
-  · exact ⟨h1, h2, h3⟩
+  · exact h
   · split
-    · exact ⟨by simpa using h1, by simpa using h2, by simpa using h3⟩
+    · simpa [RInv] using h
     · rename_i seq pl hk
       rw [hk] at g3
       obtain ⟨n, hn, hpl, hne⟩ := g3
       split
-      · exact ⟨h1, h2, h3⟩
+      · exact h
       · split
-        · exact ⟨h1, h2, h3⟩
+        · exact h
         · rename_i hseq
           simp only [ne_eq, Decidable.not_not] at hseq
-          have hlt : r.expected < 65536 := by
-            rw [← hseq]; exact seq.toNat_lt
-          have hpl_len : pl.length ≤ bs := by
-            rw [hpl, List.length_take]; omega
-          refine ⟨by show r.expected + 1 ≤ 65536; omega, ?_, ?_⟩
-          · rw [Recv.acc_write]
-            show (r.acc ++ pl).length ≤ (r.expected + 1) * bs
-            rw [List.length_append, Nat.succ_mul]; omega
-          · intro hlen
-            rw [Recv.acc_write]
-            show r.acc ++ pl = data.take ((r.expected + 1) * bs)
-            have hn' : n < 65536 := block_index_lt data bs n hlen (hpl ▸ hne)
-            have hne' : n = r.expected := by
-              rw [← hseq, hn, UInt16.toNat_ofNat_of_lt' hn']
-            rw [h3 hlen, hpl, hne', Nat.succ_mul, List.take_add]
+          have hn' : n < 65536 := block_index_lt data bs n hlen (hpl ▸ hne)
+          have hdne : data ≠ [] := by
+            intro hd; apply hne; rw [hpl, hd]; simp
+          rcases h with ⟨e, he, hexp, hacc⟩ | ⟨hd, hover⟩
+          · by_cases he' : e < 65536
+            · -- the expected block arrives
+              have hne' : n = e := ofNat_inj_of_lt n e hn' he' (by rw [← hn, hseq, hexp])
+              left
+              refine ⟨e + 1, by omega, ?_, ?_⟩
+              · show r.expected + 1 = UInt16.ofNat (e + 1)
+                rw [ofNat_succ, hexp]
+              · rw [Recv.acc_write, hacc, hpl, hne', Nat.succ_mul, List.take_add]
+            · -- the file is complete and the counter has wrapped: a replayed block 0 is taken, the receiver now
+              -- holds more than the file
+              right
+              refine ⟨hdne, ?_⟩
+              have he65 : e = 65536 := by omega
+              rw [Recv.acc_write, hacc, he65, List.take_of_length_le hlen, List.length_append]
+              have : 0 < pl.length := List.length_pos_iff.mpr hne
+              omega
+          · right
+            refine ⟨hd, ?_⟩
+            rw [Recv.acc_write, List.length_append]; omega
     · split
-      · exact ⟨h1, h2, h3⟩
-      · exact ⟨h1, h2, h3⟩
+      · exact h
+      · simpa [RInv, Recv.acc] using h
 
 theorem genuine_close (data : List UInt8) (bs : Nat) :
     Genuine data bs { id := 0, sender := 0, sid := 0, kind := .close } := ⟨rfl, rfl, trivial⟩
@@ -357,15 +384,16 @@ abbrev Inv (data : List UInt8) (bs : Nat) : St → Prop := Tri (SInv data bs) (R
 
 theorem inv_init (bsS bsR size : Nat) (hash : Option (List UInt8)) (data : List UInt8) :
     Inv data bsS (init bsS bsR size hash data) := by
-  refine ⟨⟨rfl, by simp [init]⟩, ⟨by simp [init], by simp [init, Recv.acc], by simp [init, Recv.acc]⟩, ?_⟩
+  refine ⟨⟨rfl, 0, rfl, by simp [init]⟩, Or.inl ⟨0, by omega, rfl, by simp [init, Recv.acc]⟩, ?_⟩
   intro q hq
   simp only [init, Option.some.injEq] at hq
   subst hq
   exact ⟨rfl, rfl, trivial⟩
 
-theorem inv_run (H : List UInt8 → List UInt8) (data : List UInt8) (bs : Nat) (ops : List Op) (st : St)
+theorem inv_run (H : List UInt8 → List UInt8) (data : List UInt8) (bs : Nat) (hlen : data.length ≤ 65536 * bs)
+    (ops : List Op) (st : St)
     (hb : ∀ op ∈ ops, op.benign) (h : Inv data bs st) : Inv data bs (run H st ops).1 :=
-  tri_run H (recv_RInv H data bs) (sender_SInv data bs) (genuine_close data bs) ops st hb h
+  tri_run H (recv_RInv H data bs hlen) (sender_SInv data bs) (genuine_close data bs) ops st hb h
 
 theorem checked_init (H : List UInt8 → List UInt8) (bsS bsR size : Nat) (hash : Option (List UInt8)) (data : List UInt8) :
     Checked H (init bsS bsR size hash data).r := by
@@ -375,23 +403,20 @@ theorem checked_init (H : List UInt8 → List UInt8) (bsS bsR size : Nat) (hash 
 theorem rinv_success_identical (H : List UInt8 → List UInt8) (data : List UInt8) (bs : Nat) (r : Recv)
     (hsize : r.size = data.length) (hi : RInv data bs r) (hc : Checked H r) (hs : r.success) : r.acc = data := by
   have hck := (checkFails_false_iff H r).1 (hc hs.1 hs.2)
-  obtain ⟨h1, h2, h3⟩ := hi
-  by_cases hd : data.length = 0
-  · have : data = [] := List.eq_nil_of_length_eq_zero hd
-    subst this
-    have := h3 (by simp)
-    simpa using this
-  · have hl : r.acc.length = data.length := by rw [← hsize]; exact hck.1 (by omega)
-    by_cases hlen : data.length ≤ 65536 * bs
-    · have ha := h3 hlen
-      rw [ha] at hl ⊢
+  rcases hi with ⟨e, _, _, hacc⟩ | ⟨hd, hover⟩
+  · by_cases hd : data.length = 0
+    · have : data = [] := List.eq_nil_of_length_eq_zero hd
+      subst this
+      simpa using hacc
+    · have hl : r.acc.length = data.length := by rw [← hsize]; exact hck.1 (by omega)
+      rw [hacc] at hl ⊢
       rw [List.length_take] at hl
       exact List.take_of_length_le (by omega)
-    · have : r.expected * bs ≤ 65536 * bs := Nat.mul_le_mul_right bs h1
-      omega
+  · have hpos : 0 < data.length := List.length_pos_iff.mpr hd
+    have hl : r.acc.length = data.length := by rw [← hsize]; exact hck.1 (by omega)
+    omega
 
 end Qx.C19
-
 namespace Qx.C19
 
 theorem take_succ_block (data : List UInt8) (j bs : Nat) :
@@ -411,9 +436,9 @@ theorem take_drop_ne_nil (data : List UInt8) (n bs : Nat) (hn : n < data.length)
 
 /-- the channel holds data block `j`; blocks `0 … j-1` were delivered honestly -/
 def atBlock (bsS bsR size : Nat) (hash : Option (List UInt8)) (data : List UInt8) (j : Nat) : St :=
-  { s := { blockSize := bsS, rest := data.drop ((j + 1) * bsS), seq := j + 1, requestId := j + 2, nextId := j + 3,
+  { s := { blockSize := bsS, rest := data.drop ((j + 1) * bsS), seq := UInt16.ofNat (j + 1), requestId := j + 2, nextId := j + 3,
            state := .transfer },
-    r := { maxBlock := bsR, size := size, hash := hash, state := .transfer, expected := j,
+    r := { maxBlock := bsR, size := size, hash := hash, state := .transfer, expected := UInt16.ofNat j,
            accRev := (data.take (j * bsS)).reverse, blockSize := bsS },
     pending := some { id := j + 2, sender := 0, sid := 0,
                       kind := .data (UInt16.ofNat j) ((data.drop (j * bsS)).take bsS) } }
@@ -426,15 +451,11 @@ theorem init_deliver (H : List UInt8 → List UInt8) (bsS bsR size : Nat) (hash 
   simp [step, deliverStanza, init, toR, feed, recv, sender, atBlock, h1, h2]
 
 
-theorem ofNat_toNat_ne_succ (j : Nat) (hj : j < 65535) : ¬ (UInt16.ofNat (j + 1)).toNat = j := by
-  rw [UInt16.toNat_ofNat_of_lt' (by show j + 1 < 65536; omega)]; omega
-
 theorem atBlock_next (H : List UInt8 → List UInt8) (bsS bsR size : Nat) (hash : Option (List UInt8)) (data : List UInt8)
-    (j : Nat) (hj : j < 65536) (hb : 0 < bsS) (hmore : (j + 1) * bsS < data.length) :
+    (j : Nat) (hb : 0 < bsS) (hmore : (j + 1) * bsS < data.length) :
     (step H (atBlock bsS bsR size hash data j) .deliver).1 = atBlock bsS bsR size hash data (j + 1) := by
-  have h1 : (UInt16.ofNat j).toNat = j := UInt16.toNat_ofNat_of_lt' hj
   have h2 := take_drop_ne_nil data ((j + 1) * bsS) bsS hmore hb
-  simp [step, deliverStanza, atBlock, toR, feed, recv, sender, h1, h2]
+  simp [step, deliverStanza, atBlock, toR, feed, recv, sender, h2]
   refine ⟨?_, ?_⟩
   · rw [Nat.succ_mul (j + 1) bsS]
   · rw [← List.reverse_append, take_succ_block]
@@ -446,7 +467,7 @@ theorem run_honest_succ (H : List UInt8 → List UInt8) (st : St) (n : Nat) :
   simp [honest, run]
 
 theorem honest_prefix (H : List UInt8 → List UInt8) (bsS bsR size : Nat) (hash : Option (List UInt8)) (data : List UInt8)
-    (hb : 0 < bsS) (hle : bsS ≤ bsR) (j : Nat) (hj : j ≤ 65536) (hblk : j * bsS < data.length) :
+    (hb : 0 < bsS) (hle : bsS ≤ bsR) (j : Nat) (hblk : j * bsS < data.length) :
     (run H (init bsS bsR size hash data) (honest (j + 1))).1 = atBlock bsS bsR size hash data j := by
   induction j with
   | zero =>
@@ -456,8 +477,8 @@ theorem honest_prefix (H : List UInt8 → List UInt8) (bsS bsR size : Nat) (hash
     have h0 : j * bsS < data.length := by
       have : j * bsS ≤ (j + 1) * bsS := Nat.mul_le_mul_right bsS (by omega)
       omega
-    rw [run_honest_succ, ih (by omega) h0]
-    exact atBlock_next H bsS bsR size hash data j (by omega) hb hblk
+    rw [run_honest_succ, ih h0]
+    exact atBlock_next H bsS bsR size hash data j hb hblk
 
 theorem step_deliver_idle (H : List UInt8 → List UInt8) (st : St) (h : st.pending = none) :
     (step H st .deliver).1 = st := by
@@ -471,11 +492,10 @@ theorem run_honest_idle (H : List UInt8 → List UInt8) (st : St) (h : st.pendin
 
 /-- last block: two more deliveries finish the transfer -/
 theorem atBlock_last (H : List UInt8 → List UInt8) (bsS bsR size : Nat) (hash : Option (List UInt8)) (data : List UInt8)
-    (j : Nat) (hj : j < 65536) (hlast : data.length ≤ (j + 1) * bsS)
+    (j : Nat) (hlast : data.length ≤ (j + 1) * bsS)
     (hck : (size ≠ 0 → data.length = size) ∧ (∀ h, hash = some h → H data = h)) :
     let st := (run H (atBlock bsS bsR size hash data j) (honest 2)).1
     st.r.success ∧ st.s.success ∧ st.r.acc = data ∧ st.pending = none := by
-  have h1 : (UInt16.ofNat j).toNat = j := UInt16.toNat_ofNat_of_lt' hj
   have h2 : List.drop ((j + 1) * bsS) data = [] := List.drop_of_length_le hlast
   have h3 : data.take (j * bsS) ++ (data.drop (j * bsS)).take bsS = data := by
     rw [take_succ_block]; exact List.take_of_length_le hlast
@@ -485,7 +505,7 @@ theorem atBlock_last (H : List UInt8 → List UInt8) (bsS bsR size : Nat) (hash 
     intro r e1 e2 e3
     rw [checkFails_false_iff]
     simpa [Recv.acc, e1, e2, e3] using hck
-  simp [honest, run, step, deliverStanza, atBlock, toR, feed, recv, sender, h1, h2, h4, Send.terminate,
+  simp [honest, run, step, deliverStanza, atBlock, toR, feed, recv, sender, h2, h4, Send.terminate,
     Recv.checkData, hcf, Recv.terminate, Recv.success, Send.success, Recv.acc]
 
 
@@ -499,24 +519,24 @@ theorem idx_lt (data : List UInt8) (bs j : Nat) (hlen : data.length ≤ 65536 * 
 theorem honest_from_block (H : List UInt8 → List UInt8) (bsS bsR size : Nat) (hash : Option (List UInt8)) (data : List UInt8)
     (hb : 0 < bsS)
     (hck : (size ≠ 0 → data.length = size) ∧ (∀ h, hash = some h → H data = h))
-    (m : Nat) : ∀ (j n : Nat), j + m ≤ 65535 → j * bsS < data.length → data.length ≤ (j + 1 + m) * bsS → m + 2 ≤ n →
+    (m : Nat) : ∀ (j n : Nat), j * bsS < data.length → data.length ≤ (j + 1 + m) * bsS → m + 2 ≤ n →
     let st := (run H (atBlock bsS bsR size hash data j) (honest n)).1
     st.r.success ∧ st.s.success ∧ st.r.acc = data ∧ st.pending = none := by
   induction m with
   | zero =>
-    intro j n hj hblk hlen hn
+    intro j n hblk hlen hn
     obtain ⟨k, rfl⟩ : ∃ k, n = 2 + k := ⟨n - 2, by omega⟩
-    have h := atBlock_last H bsS bsR size hash data j (by omega) (by simpa using hlen) hck
+    have h := atBlock_last H bsS bsR size hash data j (by simpa using hlen) hck
     intro st
     have : st = (run H (atBlock bsS bsR size hash data j) (honest 2)).1 := by
       show (run H _ (honest (2 + k))).1 = _
       rw [honest_add, run_append, run_honest_idle H _ h.2.2.2]
     rw [this]; exact h
   | succ m ih =>
-    intro j n hj hblk hlen hn
+    intro j n hblk hlen hn
     by_cases hlast : data.length ≤ (j + 1) * bsS
     · obtain ⟨k, rfl⟩ : ∃ k, n = 2 + k := ⟨n - 2, by omega⟩
-      have h := atBlock_last H bsS bsR size hash data j (by omega) hlast hck
+      have h := atBlock_last H bsS bsR size hash data j hlast hck
       intro st
       have : st = (run H (atBlock bsS bsR size hash data j) (honest 2)).1 := by
         show (run H _ (honest (2 + k))).1 = _
@@ -528,13 +548,13 @@ theorem honest_from_block (H : List UInt8 → List UInt8) (bsS bsR size : Nat) (
         show (run H _ (honest (1 + k))).1 = _
         rw [honest_add, run_append]
         congr 2
-        simpa [honest, run] using atBlock_next H bsS bsR size hash data j (by omega) hb (by omega)
+        simpa [honest, run] using atBlock_next H bsS bsR size hash data j hb (by omega)
       rw [this]
-      exact ih (j + 1) k (by omega) (by omega) (by rw [show j + 1 + 1 + m = j + 1 + (m + 1) by omega]; exact hlen) (by omega)
+      exact ih (j + 1) k (by omega) (by rw [show j + 1 + 1 + m = j + 1 + (m + 1) by omega]; exact hlen) (by omega)
 
-/-- fault-free run, at most 65536 blocks: everything arrives, both sides report success -/
+/-- fault-free run: everything arrives, both sides report success -/
 theorem honest_run (H : List UInt8 → List UInt8) (bsS bsR size : Nat) (hash : Option (List UInt8)) (data : List UInt8)
-    (hb : 0 < bsS) (hle : bsS ≤ bsR) (hlen : data.length ≤ 65536 * bsS)
+    (hb : 0 < bsS) (hle : bsS ≤ bsR)
     (hck : (size ≠ 0 → data.length = size) ∧ (∀ h, hash = some h → H data = h)) :
     let st := (run H (init bsS bsR size hash data) (honest (data.length + 2))).1
     st.r.success ∧ st.s.success ∧ st.r.acc = data ∧ st.pending = none := by
@@ -556,518 +576,7 @@ theorem honest_run (H : List UInt8 → List UInt8) (bsS bsR size : Nat) (hash : 
       simpa [honest, run] using init_deliver H bsS bsR size hash data hd hb hle
     rw [this]
     have hmul : data.length ≤ data.length * bsS := Nat.le_mul_of_pos_right _ hb
-    by_cases hsmall : data.length ≤ 65536
-    · exact honest_from_block H bsS bsR size hash data hb hck (data.length - 1) 0 (data.length + 1) (by omega) (by omega)
-        (by rw [show 0 + 1 + (data.length - 1) = data.length by omega]; exact hmul) (by omega)
-    · exact honest_from_block H bsS bsR size hash data hb hck 65535 0 (data.length + 1) (by omega) (by omega)
-        (by simpa using hlen) (by omega)
-
-/-- block 65536 goes out with wire sequence number 0 while the receiver waits for 65536 -/
-theorem atBlock_wrap (H : List UInt8 → List UInt8) (bsS bsR : Nat) (hash : Option (List UInt8)) (data : List UInt8)
-    (hblk : 65536 * bsS < data.length) :
-    let st := (run H (atBlock bsS bsR data.length hash data 65536) (honest 2)).1
-    st.r.state = .finished ∧ st.r.error = .corrupt ∧ st.s.state = .finished ∧ st.s.error = .protocol ∧
-      st.pending = none ∧ st.r.acc = data.take (65536 * bsS) := by
-  have hcf : ∀ r : Recv, r.size = data.length → r.accRev = (data.take (65536 * bsS)).reverse → r.checkFails H = true := by
-    intro r e1 e3
-    simp [Recv.checkFails, Recv.acc, e1, e3]
-    left
-    refine ⟨?_, by omega⟩
-    intro hd; simp [hd] at hblk
-  simp [honest, run, step, deliverStanza, atBlock, toR, feed, recv, sender, Send.terminate,
-    Recv.checkData, hcf, Recv.terminate, Recv.acc]
-
-end Qx.C19
-
-namespace Qx.C19
-
-/-! ### after a lost / reordered / mislabelled block the receiver can never complete -/
-
-/-- a request of the sending job whose block index lies beyond `e` -/
-def Late (e : Nat) (p : Stanza) : Prop :=
-  p.sender = 0 ∧ p.sid = 0 ∧
-    match p.kind with
-    | .data seq _ => ∃ n, seq = UInt16.ofNat n ∧ e < n ∧ n < 65536
-    | _ => True
-
-def SD (data : List UInt8) (bs e : Nat) (s : Send) : Prop := SInv data bs s ∧ e < s.seq
-
-/-- the receiver waits for block `e`, holds fewer bytes than announced and has not reported success -/
-def RD (len e : Nat) (r : Recv) : Prop :=
-  r.expected = e ∧ r.size = len ∧ r.acc.length < len ∧ ¬ r.success
-
-theorem sender_seq_le (s : Send) (rep : Reply) : s.seq ≤ (sender s rep).1.seq := by
-  unfold sender
-  split
-  · exact Nat.le_refl _
-  · split
-    · exact Nat.le_refl _
-    · split
-      · exact Nat.le_refl _
-      · split
-        · split
-          · exact Nat.le_succ _
-          · simp
-        · simp
-
-theorem sender_late (data : List UInt8) (bs e : Nat) (hlen : data.length ≤ 65536 * bs) (s : Send) (rep : Reply)
-    (h : SD data bs e s) : ∀ p, (sender s rep).2 = some p → Late e p := by
-  obtain ⟨⟨hb, hr⟩, he⟩ := h
-  unfold sender
-  intro p
-  split
-  · simp
-  · split
-    · simp
-    · split
-      · simp
-      · split
-        · split
-          · rename_i hne
-            intro hp
-            simp only [Option.some.injEq] at hp
-            subst hp
-            refine ⟨rfl, rfl, s.seq, rfl, he, ?_⟩
-            rw [hr, hb] at hne
-            exact block_index_lt data bs s.seq hlen hne
-          · intro hp; simp only [Option.some.injEq] at hp; subst hp; exact ⟨rfl, rfl, trivial⟩
-        · intro hp; simp only [Option.some.injEq] at hp; subst hp; exact ⟨rfl, rfl, trivial⟩
-
-theorem sender_SD (data : List UInt8) (bs e : Nat) (hlen : data.length ≤ 65536 * bs) (s : Send) (rep : Reply)
-    (h : SD data bs e s) : SD data bs e (sender s rep).1 ∧ ∀ p, (sender s rep).2 = some p → Late e p :=
-  ⟨⟨(sender_SInv data bs s rep h.1).1, Nat.lt_of_lt_of_le h.2 (sender_seq_le s rep)⟩, sender_late data bs e hlen s rep h⟩
-
-theorem recv_RD (H : List UInt8 → List UInt8) (len e : Nat) (r : Recv) (p : Stanza)
-    (h : RD len e r) (hp : Late e p ∨ Foreign p) : RD len e (recv H r p).1 := by
-  by_cases hf : Foreign p
-  · rw [recv_foreign H r p hf]; exact h
-  have hg : Late e p := hp.resolve_right hf
-  obtain ⟨h1, h2, h3, h4⟩ := h
-  obtain ⟨g1, g2, g3⟩ := hg
-  unfold recv
-  split
-  · exact ⟨h1, h2, h3, h4⟩
-  · split
-    · refine ⟨by simpa using h1, by simpa using h2, by simpa using h3, ?_⟩
-      apply Recv.checkData_fails_not_success H r _ h4
-      simp [Recv.checkFails]
-      left
-      omega
-    · rename_i seq pl hk
-      rw [hk] at g3
-      obtain ⟨n, hn, hlt, hn'⟩ := g3
-      split
-      · exact ⟨h1, h2, h3, h4⟩
-      · split
-        · exact ⟨h1, h2, h3, h4⟩
-        · rename_i hseq
-          simp only [ne_eq, Decidable.not_not] at hseq
-          rw [hn, UInt16.toNat_ofNat_of_lt' hn'] at hseq
-          omega
-    · split
-      · exact ⟨h1, h2, h3, h4⟩
-      · exact ⟨h1, h2, h3, by simp [Recv.success]⟩
-
-theorem late_close (e : Nat) : Late e { id := 0, sender := 0, sid := 0, kind := .close } := ⟨rfl, rfl, trivial⟩
-
-abbrev Doomed (data : List UInt8) (bs e : Nat) : St → Prop := Tri (SD data bs e) (RD data.length e) (Late e)
-
-theorem doomed_never_success (H : List UInt8 → List UInt8) (data : List UInt8) (bs e : Nat)
-    (hlen : data.length ≤ 65536 * bs) (st : St) (h : Doomed data bs e st)
-    (cont : List Op) (hb : ∀ op ∈ cont, op.benign) : ¬ (run H st cont).1.r.success :=
-  (tri_run H (recv_RD H data.length e) (sender_SD data bs e hlen) (late_close e) cont st hb h).r.2.2.2
-
-/-! ### after the stream was cut short the job stays finished with an error -/
-
-def NotOpen (p : Stanza) : Prop := p.sender = 0 ∧ p.sid = 0 ∧ ∀ bs, p.kind ≠ .open bs
-
-def RF (r : Recv) : Prop := r.state = .finished ∧ ¬ r.success
-
-theorem recv_RF (H : List UInt8 → List UInt8) (r : Recv) (p : Stanza)
-    (h : RF r) (hp : NotOpen p ∨ Foreign p) : RF (recv H r p).1 := by
-  by_cases hf : Foreign p
-  · rw [recv_foreign H r p hf]; exact h
-  have hg : NotOpen p := hp.resolve_right hf
-  obtain ⟨h1, h2⟩ := h
-  unfold recv
-  split
-  · exact ⟨h1, h2⟩
-  · split
-    · have : r.checkData H = r := by
-        unfold Recv.checkData Recv.terminate; simp [h1]
-      rw [this]; exact ⟨h1, h2⟩
-    · split
-      · exact ⟨h1, h2⟩
-      · rename_i hst; simp [h1] at hst
-    · rename_i bs hk
-      exact absurd hk (hg.2.2 bs)
-
-theorem sender_notOpen (s : Send) (rep : Reply) : True ∧ ∀ p, (sender s rep).2 = some p → NotOpen p := by
-  refine ⟨trivial, ?_⟩
-  unfold sender
-  intro p
-  split
-  · simp
-  · split
-    · simp
-    · split
-      · simp
-      · split
-        · split <;> (intro hp; simp only [Option.some.injEq] at hp; subst hp; exact ⟨rfl, rfl, by simp⟩)
-        · intro hp; simp only [Option.some.injEq] at hp; subst hp; exact ⟨rfl, rfl, by simp⟩
-
-theorem closed_never_success (H : List UInt8 → List UInt8) (st : St)
-    (h : Tri (fun _ => True) RF NotOpen st) (cont : List Op) (hb : ∀ op ∈ cont, op.benign) :
-    ¬ (run H st cont).1.r.success :=
-  (tri_run H (recv_RF H) (fun s rep _ => sender_notOpen s rep) ⟨rfl, rfl, by simp⟩ cont st hb h).r.2
-
-end Qx.C19
-
-namespace Qx.C19
-
-/-! ### the state reached by each single fault on data block `j` -/
-
-section faults
-set_option linter.unusedSimpArgs false
-variable (H : List UInt8 → List UInt8) (bsS bsR : Nat) (hash : Option (List UInt8)) (data : List UInt8) (j : Nat)
-
-theorem atBlock_acc_length (size : Nat) (hblk : j * bsS < data.length) :
-    (atBlock bsS bsR size hash data j).r.acc.length = j * bsS := by
-  simp [atBlock, Recv.acc]; omega
-
-/-- with the pending block taken out, the receiver waits for block `j` and the sender is already past it -/
-theorem atBlock_cleared_doomed (hblk : j * bsS < data.length) :
-    Doomed data bsS j { atBlock bsS bsR data.length hash data j with pending := none } := by
-  refine ⟨⟨⟨rfl, rfl⟩, by show j < j + 1; omega⟩, ⟨rfl, rfl, ?_, by simp [atBlock, Recv.success]⟩, by simp⟩
-  show (atBlock bsS bsR data.length hash data j).r.acc.length < data.length
-  rw [atBlock_acc_length bsS bsR hash data j _ hblk]; exact hblk
-
-theorem tri_of_eq {SP : Send → Prop} {RP : Recv → Prop} {G : Stanza → Prop} {a b : St} (h : Tri SP RP G a) (e : b = a) :
-    Tri SP RP G b := e ▸ h
-
-theorem drop_doomed (hlen : data.length ≤ 65536 * bsS) (hblk : j * bsS < data.length) :
-    Doomed data bsS j (step H (atBlock bsS bsR data.length hash data j) .drop).1 := by
-  have h := tri_feed H (recv_RD H data.length j) (sender_SD data bsS j hlen) (late_close j) _
-    (ack { id := j + 2, sender := 0, sid := 0, kind := .data (UInt16.ofNat j) ((data.drop (j * bsS)).take bsS) })
-    (atBlock_cleared_doomed bsS bsR hash data j hblk)
-  exact tri_of_eq h (by simp [step, atBlock])
-
-theorem wrongSid_doomed (hlen : data.length ≤ 65536 * bsS) (hblk : j * bsS < data.length) :
-    Doomed data bsS j (step H (atBlock bsS bsR data.length hash data j) .wrongSid).1 := by
-  have h := tri_deliverStanza H (recv_RD H data.length j) (sender_SD data bsS j hlen) (late_close j) _
-    { id := j + 2, sender := 0, sid := 1, kind := .data (UInt16.ofNat j) ((data.drop (j * bsS)).take bsS) }
-    (atBlock_cleared_doomed bsS bsR hash data j hblk) (Or.inr (Or.inr (by simp)))
-  exact tri_of_eq h (by simp [step, atBlock])
-
-theorem wrongSender_doomed (hlen : data.length ≤ 65536 * bsS) (hblk : j * bsS < data.length) :
-    Doomed data bsS j (step H (atBlock bsS bsR data.length hash data j) .wrongSender).1 := by
-  have h := tri_deliverStanza H (recv_RD H data.length j) (sender_SD data bsS j hlen) (late_close j) _
-    { id := j + 2, sender := 1, sid := 0, kind := .data (UInt16.ofNat j) ((data.drop (j * bsS)).take bsS) }
-    (atBlock_cleared_doomed bsS bsR hash data j hblk) (Or.inr (Or.inl (by simp)))
-  exact tri_of_eq h (by simp [step, atBlock])
-
-
-theorem earlyClose_closed (hblk : j * bsS < data.length) :
-    Tri (fun _ => True) RF NotOpen (step H (atBlock bsS bsR data.length hash data j) .earlyClose).1 := by
-  have hcf : ∀ r : Recv, r.size = data.length → r.accRev = (data.take (j * bsS)).reverse → r.checkFails H = true := by
-    intro r e1 e3
-    simp [Recv.checkFails, Recv.acc, e1, e3]
-    left
-    refine ⟨?_, by omega⟩
-    intro hd; simp [hd] at hblk
-  refine ⟨trivial, ?_, ?_⟩
-  · simp [step, deliverStanza, atBlock, toR, feed, recv, Recv.checkData, hcf, Recv.terminate, RF, Recv.success]
-  · intro q hq
-    simp [step, deliverStanza, atBlock, toR, feed, recv, sender] at hq
-    subst hq
-    exact ⟨rfl, rfl, by simp⟩
-
-theorem swap_doomed (hb : 0 < bsS) (hlen : data.length ≤ 65536 * bsS) (hblk : j * bsS < data.length) :
-    ∃ e, Doomed data bsS e (step H (atBlock bsS bsR data.length hash data j) .swap).1 := by
-  have hj : j < 65536 := idx_lt data bsS j hlen hblk
-  have h1 : (UInt16.ofNat j).toNat = j := UInt16.toNat_ofNat_of_lt' hj
-  by_cases hmore : (j + 1) * bsS < data.length
-  · -- the next block exists: it is refused, the held block is then accepted, the sender gives up
-    have hj1 : j + 1 < 65536 := idx_lt data bsS (j + 1) hlen hmore
-    have h2 := take_drop_ne_nil data ((j + 1) * bsS) bsS hmore hb
-    have h3 : ¬ (j + 1) % 65536 = j := by omega
-    refine ⟨j + 1, ?_, ?_, ?_⟩
-    · refine ⟨⟨?_, ?_⟩, ?_⟩
-      · simp [step, deliverStanza, atBlock, toR, feed, recv, sender, ack, h1, h2, h3]
-      · simp [step, deliverStanza, atBlock, toR, feed, recv, sender, ack, h1, h2, h3]
-        rw [Nat.succ_mul (j + 1) bsS]
-      · simp [step, deliverStanza, atBlock, toR, feed, recv, sender, ack, h1, h2, h3]
-    · refine ⟨?_, ?_, ?_, ?_⟩
-      · simp [step, deliverStanza, atBlock, toR, feed, recv, sender, ack, h1, h2, h3]
-      · simp [step, deliverStanza, atBlock, toR, feed, recv, sender, ack, h1, h2, h3]
-      · simp [step, deliverStanza, atBlock, toR, feed, recv, sender, ack, h1, h2, h3, Recv.acc]
-        have key : ∀ x len bs : Nat, x + bs < len → min x len + min bs (len - x) < len := by
-          intro x len bs h; omega
-        exact key (j * bsS) data.length bsS (by rw [← Nat.succ_mul]; exact hmore)
-      · simp [step, deliverStanza, atBlock, toR, feed, recv, sender, ack, h1, h2, h3, Recv.success]
-    · intro q hq
-      simp [step, deliverStanza, atBlock, toR, feed, recv, sender, ack, h1, h2, h3] at hq
-      subst hq
-      exact ⟨rfl, rfl, trivial⟩
-  · -- the held block was the last one: the sender closes, the receiver's check fails, the held block comes too late
-    have h2 : List.drop ((j + 1) * bsS) data = [] := List.drop_of_length_le (by omega)
-    have hcf : ∀ r : Recv, r.size = data.length → r.accRev = (data.take (j * bsS)).reverse → r.checkFails H = true := by
-      intro r e1 e3
-      simp [Recv.checkFails, Recv.acc, e1, e3]
-      left
-      refine ⟨?_, by omega⟩
-      intro hd; simp [hd] at hblk
-    refine ⟨j, ?_, ?_, ?_⟩
-    · refine ⟨⟨?_, ?_⟩, ?_⟩
-      · simp [step, deliverStanza, atBlock, toR, feed, recv, sender, ack, h1, h2, Send.terminate]
-      · simp [step, deliverStanza, atBlock, toR, feed, recv, sender, ack, h1, h2, Send.terminate]
-      · simp [step, deliverStanza, atBlock, toR, feed, recv, sender, ack, h1, h2, Send.terminate]
-    · refine ⟨?_, ?_, ?_, ?_⟩
-      · simp [step, deliverStanza, atBlock, toR, feed, recv, sender, ack, h1, h2, Send.terminate, Recv.checkData, hcf, Recv.terminate]
-      · simp [step, deliverStanza, atBlock, toR, feed, recv, sender, ack, h1, h2, Send.terminate, Recv.checkData, hcf, Recv.terminate]
-      · simp [step, deliverStanza, atBlock, toR, feed, recv, sender, ack, h1, h2, Send.terminate, Recv.checkData, hcf, Recv.terminate, Recv.acc]
-        omega
-      · simp [step, deliverStanza, atBlock, toR, feed, recv, sender, ack, h1, h2, Send.terminate, Recv.checkData, hcf, Recv.terminate, Recv.success]
-    · intro q hq
-      simp [step, deliverStanza, atBlock, toR, feed, recv, sender, ack, h1, h2, Send.terminate, Recv.checkData, hcf, Recv.terminate] at hq
-
-end faults
-end Qx.C19
-
-namespace Qx.C19
-
-theorem bitMask_ne_zero (k : Nat) : bitMask k ≠ 0 := by
-  unfold bitMask; split <;> decide
-
-@[simp] theorem length_flipBit (l : List UInt8) (bit : Nat) : (flipBit l bit).length = l.length := by
-  simp [flipBit]
-
-theorem flipBit_ne (l : List UInt8) (bit : Nat) (h : l ≠ []) : flipBit l bit ≠ l := by
-  have hpos : 0 < l.length := List.length_pos_iff.mpr h
-  have hi : bit % (8 * l.length) / 8 < l.length := by
-    have : bit % (8 * l.length) < 8 * l.length := Nat.mod_lt _ (by omega)
-    omega
-  intro he
-  unfold flipBit at he
-  have h1 := congrArg (fun x => x[bit % (8 * l.length) / 8]?) he
-  simp only [List.getElem?_set_self hi, List.getElem?_eq_getElem hi, Option.some.injEq] at h1
-  have h2 : l.getD (bit % (8 * l.length) / 8) 0 = l[bit % (8 * l.length) / 8] := by
-    simp [List.getD, List.getElem?_eq_getElem hi]
-  rw [h2] at h1
-  have h3 : l[bit % (8 * l.length) / 8] ^^^ bitMask (bit % (8 * l.length)) = l[bit % (8 * l.length) / 8] ^^^ 0 := by
-    rw [h1]; simp
-  exact bitMask_ne_zero _ ((UInt8.xor_right_inj _).1 h3)
-
-
-theorem recv_acc_prefix (H : List UInt8 → List UInt8) (X : List UInt8) (r : Recv) (p : Stanza)
-    (h : ∃ t, r.acc = X ++ t) : ∃ t, (recv H r p).1.acc = X ++ t := by
-  unfold recv
-  split
-  · exact h
-  · split
-    · simpa using h
-    · split
-      · exact h
-      · split
-        · exact h
-        · rename_i seq pl _ _ _
-          obtain ⟨t, ht⟩ := h
-          exact ⟨t ++ pl, by rw [Recv.acc_write, ht, List.append_assoc]⟩
-    · split
-      · exact h
-      · exact h
-
-theorem run_acc_prefix (H : List UInt8 → List UInt8) (X : List UInt8) (ops : List Op) (st : St)
-    (h : ∃ t, st.r.acc = X ++ t) : ∃ t, (run H st ops).1.r.acc = X ++ t :=
-  run_r_inv H (fun r => ∃ t, r.acc = X ++ t) (recv_acc_prefix H X) ops st h
-
-theorem altered_prefix_ne (data : List UInt8) (n bs : Nat) (pl' t : List UInt8)
-    (hlen : pl'.length = ((data.drop n).take bs).length) (hne : pl' ≠ (data.drop n).take bs) :
-    data.take n ++ pl' ++ t ≠ data := by
-  intro he
-  have h1 : data.take n ++ (pl' ++ t) = data.take n ++ data.drop n := by
-    rw [← List.append_assoc, he, List.take_append_drop]
-  have h2 : pl' ++ t = data.drop n := List.append_cancel_left h1
-  have h3 : pl' = (data.drop n).take pl'.length := by
-    rw [← h2]; simp
-  apply hne
-  rw [h3, List.take_eq_take_iff, hlen, List.length_take]
-  omega
-
-section flip
-set_option linter.unusedSimpArgs false
-variable (H : List UInt8 → List UInt8) (bsS bsR size : Nat) (hash : Option (List UInt8)) (data : List UInt8) (j : Nat)
-
-theorem flip_acc (hj : j < 65536) (bit : Nat) :
-    (step H (atBlock bsS bsR size hash data j) (.flip bit)).1.r.acc =
-      data.take (j * bsS) ++ flipBit ((data.drop (j * bsS)).take bsS) bit := by
-  have h1 : j % 65536 = j := by omega
-  simp [step, deliverStanza, atBlock, toR, feed, recv, sender, flipStanza, h1, Recv.acc]
-
-theorem dup_eq_deliver (hj : j < 65536) :
-    (step H (atBlock bsS bsR size hash data j) .dup).1 = (step H (atBlock bsS bsR size hash data j) .deliver).1 ∧
-    (step H (atBlock bsS bsR size hash data j) .dup).2 =
-      [{ id := j + 2, to := 0, err := none }, { id := j + 2, to := 0, err := some .unexpectedRequest }] ∧
-    (step H (atBlock bsS bsR size hash data j) .dup).1.r.acc = data.take ((j + 1) * bsS) := by
-  have h1 : j % 65536 = j := by omega
-  have h3 : data.take (j * bsS) ++ (data.drop (j * bsS)).take bsS = data.take ((j + 1) * bsS) := take_succ_block data j bsS
-  refine ⟨?_, ?_, ?_⟩
-  · by_cases h2 : List.take bsS (List.drop ((j + 1) * bsS) data) = []
-    · simp [step, deliverStanza, atBlock, toR, feed, recv, sender, h1, h2, Send.terminate]
-    · simp [step, deliverStanza, atBlock, toR, feed, recv, sender, h1, h2]
-  · simp [step, atBlock, toR, recv, h1]
-  · simp [step, atBlock, toR, feed, recv, h1, Recv.acc, h3]
-
-end flip
-end Qx.C19
-
-namespace Qx.C19
-
-/-! ### SOCKS5 receive path -/
-
-theorem checked_checkData (H : List UInt8 → List UInt8) (r : Recv) (h : Checked H r) : Checked H (r.checkData H) := by
-  unfold Recv.checkData Recv.terminate
-  split
-  · split
-    · exact h
-    · intro _ he; simp at he
-  · split
-    · exact h
-    · rename_i hck _
-      intro _ _
-      simpa [Recv.checkFails, Recv.acc] using hck
-
-theorem sstep_checked (H : List UInt8 → List UInt8) (r : Recv) (op : SOp) (h : Checked H r) : Checked H (sstep H r op) := by
-  cases op with
-  | chunk bytes =>
-    simp only [sstep]
-    split
-    · exact h
-    · rename_i hst
-      simp only [ne_eq, Decidable.not_not] at hst
-      split
-      · apply checked_checkData
-        intro hf; simp [hst] at hf
-      · intro hf; simp [hst] at hf
-  | disconnect =>
-    simp only [sstep]
-    split
-    · exact h
-    · exact checked_checkData H r h
-
-theorem srun_checked (H : List UInt8 → List UInt8) (ops : List SOp) (r : Recv) (h : Checked H r) : Checked H (srun H r ops) := by
-  induction ops generalizing r with
-  | nil => exact h
-  | cons op ops ih => exact ih _ (sstep_checked H r op h)
-
-@[simp] theorem sstep_size (H : List UInt8 → List UInt8) (r : Recv) (op : SOp) : (sstep H r op).size = r.size := by
-  cases op <;> simp only [sstep] <;> repeat (first | rfl | split | simp)
-
-@[simp] theorem sstep_hash (H : List UInt8 → List UInt8) (r : Recv) (op : SOp) : (sstep H r op).hash = r.hash := by
-  cases op <;> simp only [sstep] <;> repeat (first | rfl | split | simp)
-
-@[simp] theorem srun_size (H : List UInt8 → List UInt8) (ops : List SOp) (r : Recv) : (srun H r ops).size = r.size := by
-  induction ops generalizing r with
-  | nil => rfl
-  | cons op ops ih => simp [srun, ih]
-
-@[simp] theorem srun_hash (H : List UInt8 → List UInt8) (ops : List SOp) (r : Recv) : (srun H r ops).hash = r.hash := by
-  induction ops generalizing r with
-  | nil => rfl
-  | cons op ops ih => simp [srun, ih]
-
-/-- number of payload bytes in a list of socket events -/
-def sbytes : List SOp → Nat
-  | [] => 0
-  | .chunk b :: ops => b.length + sbytes ops
-  | .disconnect :: ops => sbytes ops
-
-theorem srun_short (H : List UInt8 → List UInt8) (ops : List SOp) (r : Recv)
-    (hn : ¬ r.success) (hlt : r.acc.length + sbytes ops < r.size) : ¬ (srun H r ops).success := by
-  induction ops generalizing r with
-  | nil => exact hn
-  | cons op ops ih =>
-    cases op with
-    | chunk b =>
-      simp only [srun, sstep]
-      simp only [sbytes] at hlt
-      split
-      · exact ih r hn (by omega)
-      · rename_i hst
-        simp only [ne_eq, Decidable.not_not] at hst
-        have hacc : ({ r with accRev := b.reverse ++ r.accRev } : Recv).acc.length = r.acc.length + b.length := by
-          simp [Recv.acc] <;> omega
-        split
-        · rename_i hge
-          have hge2 := hge.2
-          rw [hacc] at hge2
-          have : ({ r with accRev := b.reverse ++ r.accRev } : Recv).size = r.size := rfl
-          omega
-        · apply ih
-          · simp [Recv.success, hst]
-          · rw [hacc]; show r.acc.length + b.length + sbytes ops < r.size; omega
-    | disconnect =>
-      simp only [srun, sstep]
-      simp only [sbytes] at hlt
-      split
-      · exact ih r hn hlt
-      · apply ih
-        · apply Recv.checkData_fails_not_success H r _ hn
-          simp [Recv.checkFails]
-          left; omega
-        · simpa using hlt
-
-theorem sstep_chunk_transfer (H : List UInt8 → List UInt8) (r : Recv) (c : List UInt8) (hst : r.state = .transfer) :
-    sstep H r (.chunk c) =
-      if r.size ≠ 0 ∧ (r.acc ++ c).length ≥ r.size then
-        ({ r with accRev := c.reverse ++ r.accRev } : Recv).checkData H
-      else { r with accRev := c.reverse ++ r.accRev } := by
-  simp [sstep, hst, Recv.acc]
-
-theorem check_pass (H : List UInt8 → List UInt8) (data : List UInt8) (r' : Recv)
-    (e1 : r'.size = data.length) (e2 : ∀ h, r'.hash = some h → H data = h) (e3 : r'.acc = data) (e4 : r'.state = .transfer) :
-    (r'.checkData H).success ∧ (r'.checkData H).acc = data := by
-  have hcf : r'.checkFails H = false := by
-    rw [checkFails_false_iff]
-    exact ⟨fun _ => by rw [e3, e1], fun h hh => by rw [e3]; exact e2 h hh⟩
-  refine ⟨?_, by simpa using e3⟩
-  unfold Recv.checkData Recv.terminate
-  simp [hcf, e4, Recv.success]
-
-theorem srun_honest (H : List UInt8 → List UInt8) (data : List UInt8) (cs : List (List UInt8)) (r : Recv)
-    (hsize : r.size = data.length) (hhash : ∀ h, r.hash = some h → H data = h)
-    (h : (r.state = .transfer ∧ r.acc ++ cs.flatten = data) ∨ (r.success ∧ r.acc = data)) :
-    (srun H r (cs.map .chunk ++ [.disconnect])).success ∧ (srun H r (cs.map .chunk ++ [.disconnect])).acc = data := by
-  induction cs generalizing r with
-  | nil =>
-    simp only [List.map_nil, List.nil_append, srun, sstep]
-    rcases h with ⟨hst, hacc⟩ | ⟨hs, hacc⟩
-    · rw [if_neg (by rw [hst]; decide)]
-      exact check_pass H data r hsize hhash (by simpa using hacc) hst
-    · rw [if_pos hs.1]
-      exact ⟨hs, hacc⟩
-  | cons c cs ih =>
-    simp only [List.map_cons, List.cons_append, srun]
-    rcases h with ⟨hst, hacc⟩ | ⟨hs, hacc⟩
-    · rw [sstep_chunk_transfer H r c hst]
-      simp only [List.flatten_cons] at hacc
-      have hacc' : ({ r with accRev := c.reverse ++ r.accRev } : Recv).acc = r.acc ++ c := by simp [Recv.acc]
-      split
-      · rename_i hge
-        have hlen := congrArg List.length hacc
-        simp only [List.length_append] at hlen
-        have hge2 : r.size ≤ (r.acc ++ c).length := hge.2
-        simp only [List.length_append] at hge2
-        have hfl : cs.flatten = [] := by
-          apply List.eq_nil_of_length_eq_zero
-          omega
-        have hfull : r.acc ++ c = data := by simpa [hfl, List.append_assoc] using hacc
-        have hp := check_pass H data { r with accRev := c.reverse ++ r.accRev } hsize hhash (by rw [hacc', hfull]) hst
-        exact ih _ (by simpa using hsize) (by simpa using hhash) (Or.inr hp)
-      · exact ih _ hsize hhash (Or.inl ⟨hst, by rw [hacc', List.append_assoc]; exact hacc⟩)
-    · have : sstep H r (.chunk c) = r := by
-        simp [sstep, hs.1]
-      rw [this]
-      exact ih r hsize hhash (Or.inr ⟨hs, hacc⟩)
+    exact honest_from_block H bsS bsR size hash data hb hck (data.length - 1) 0 (data.length + 1) (by omega)
+      (by rw [show 0 + 1 + (data.length - 1) = data.length by omega]; exact hmul) (by omega)
 
 end Qx.C19
